@@ -125,11 +125,11 @@ def run_one(m, lane):
     open(p, 'w', newline='').write(new.replace('\n', '\r\n') if crlf else new)
     env = dict(os.environ, PYTHONPATH=repo)
     t = subprocess.run(['/venv/bin/python', '-m', 'pytest', '-q', '-x', '-p', 'no:cacheprovider', 'test/scales'], cwd=repo,
-                       env=env, stdout=subprocess.PIPE, stderr=subprocess.STDOUT, text=True, timeout=600)
+                       env=env, stdout=subprocess.PIPE, stderr=subprocess.STDOUT, text=True, timeout=150)
     res = {'id': m['id'], 'unit': 'pass' if t.returncode == 0 else 'fail', 'checks': {}}
     if t.returncode == 0:
         for pid in m['props']:
-            q = subprocess.run(['./check', pid, '--tier', 'quick'], cwd=VERIF,
+            q = subprocess.run(['./check', pid, '--tier', 'quick'], cwd=os.environ.get('MUT_VERIF', VERIF),
                                env=dict(os.environ, SCALES_REPO=repo, VERIF_SEED='1'),
                                stdout=subprocess.PIPE, stderr=subprocess.STDOUT, text=True, timeout=1800)
             v = [l for l in q.stdout.splitlines() if l.startswith('VIOLATION')]
